@@ -309,7 +309,13 @@ func c26Check(tb testing.TB, req *writev2.Request, nodes int, algo HashringAlgor
 			return fmt.Sprintf("translateV2ToV1 series %d differs from the expansion of the symbol table\n got: %s\nwant: %s", i, got[i], want[i]), classes, false
 		}
 	}
-	// (b) through the handler, as ingested by the peers
+	// (b) through the handler, as ingested by the peers. The expectation is taken from the request as it
+	// is on the wire (the test's own gogo marshaller is not neutral: it drops -0.0 like a proto3 zero).
+	var wire writev2.Request
+	if err := proto.Unmarshal(append([]byte(nil), body...), &wire); err != nil {
+		tb.Fatalf("harness: unmarshal of own body: %v", err)
+	}
+	want, _, _ = c26Expect(&wire)
 	p := c26PostBody(tb, body, nodes, algo)
 	if p.res.panicked != nil {
 		return fmt.Sprintf("request handling panicked on a valid request: %v\n%s", p.res.panicked, p.res.stack), classes, false
@@ -320,28 +326,19 @@ func c26Check(tb testing.TB, req *writev2.Request, nodes int, algo HashringAlgor
 	if !c26SameMultiset(p.forwarded, want) {
 		return fmt.Sprintf("the series handed to the peers differ from the request\n got: %s\nwant: %s", strings.Join(p.forwarded, "\n      "), strings.Join(want, "\n      ")), classes, false
 	}
-	if len(want) > 0 {
-		var ts, hs, es int
-		for i := range req.Timeseries {
-			ts += len(req.Timeseries[i].Samples)
-			hs += len(req.Timeseries[i].Histograms)
-			es += len(req.Timeseries[i].Exemplars)
-		}
-		_ = ts
-		_ = hs
-		_ = es
-	}
-	histEx := false
+	histEx, hasH, hasE := false, false, false
 	for i := range req.Timeseries {
 		if len(req.Timeseries[i].Histograms) > 0 && len(req.Timeseries[i].Exemplars) > 0 {
 			histEx = true
 		}
-		if len(req.Timeseries[i].Histograms) > 0 {
-			classes = append(classes, "has-histogram")
-		}
-		if len(req.Timeseries[i].Exemplars) > 0 {
-			classes = append(classes, "has-exemplar")
-		}
+		hasH = hasH || len(req.Timeseries[i].Histograms) > 0
+		hasE = hasE || len(req.Timeseries[i].Exemplars) > 0
+	}
+	if hasH {
+		classes = append(classes, "has-histogram")
+	}
+	if hasE {
+		classes = append(classes, "has-exemplar")
 	}
 	if len(req.Timeseries) == 0 {
 		classes = append(classes, "no-series")
@@ -375,7 +372,7 @@ func c26GenFloat(rt *rapid.T, label string) float64 {
 func c26GenRefs(rt *rapid.T, label string, nsym int, pairs int, bad *bool, allowBad bool) []uint32 {
 	var refs []uint32
 	for i := 0; i < 2*pairs; i++ {
-		if allowBad && rapid.IntRange(0, 24).Draw(rt, label+"bad") == 0 {
+		if allowBad && rapid.IntRange(0, 9).Draw(rt, label+"bad") == 0 {
 			*bad = true
 			refs = append(refs, rapid.SampledFrom([]uint32{uint32(nsym), uint32(nsym) + 1, uint32(nsym) + 7, 1 << 20, math.MaxUint32}).Draw(rt, label+"oor"))
 			continue
@@ -477,10 +474,21 @@ func c26Gen(rt *rapid.T, allowBad bool) (*writev2.Request, bool) {
 			ts.Metadata = writev2.Metadata{Type: writev2.Metadata_MetricType(rapid.IntRange(0, 7).Draw(rt, "mt")),
 				HelpRef: uint32(rapid.IntRange(0, nsym-1).Draw(rt, "help")), UnitRef: uint32(rapid.IntRange(0, nsym-1).Draw(rt, "unit"))}
 		}
-		if rapid.IntRange(0, 39).Draw(rt, "oddRefs") == 0 && nsym > 0 {
+		if rapid.IntRange(0, 39).Draw(rt, "oddRefs") == 17 && nsym > 0 {
 			ts.LabelsRefs = append(ts.LabelsRefs, 0) // odd length, every index valid
 		}
 		req.Timeseries = append(req.Timeseries, ts)
+	}
+	if allowBad && !bad {
+		// the case was drawn as "has a reference outside the table": make sure it has one
+		oor := uint32(nsym + rapid.IntRange(0, 3).Draw(rt, "forcedOor"))
+		ts := writev2.TimeSeries{LabelsRefs: []uint32{oor, 0}, Samples: []writev2.Sample{{Timestamp: 1, Value: 1}}}
+		if rapid.Bool().Draw(rt, "forcedInExemplar") && nsym >= 2 {
+			ts = writev2.TimeSeries{LabelsRefs: []uint32{0, 1}, Exemplars: []writev2.Exemplar{{LabelsRefs: []uint32{1, oor}, Value: 1}}}
+		}
+		pos := rapid.IntRange(0, len(req.Timeseries)).Draw(rt, "forcedPos")
+		req.Timeseries = append(req.Timeseries[:pos], append([]writev2.TimeSeries{ts}, req.Timeseries[pos:]...)...)
+		bad = true
 	}
 	return req, bad
 }
@@ -532,18 +540,18 @@ func TestVerifC26(t *testing.T) {
 		}
 	}
 	rec.Check(t, func(rt *rapid.T) {
-		req, _ := c26Gen(rt, true)
+		// one case in six carries a reference outside the table; while F11 is open that class is not generated
+		outOfRange := rapid.IntRange(0, 5).Draw(rt, "withRefOutsideTable") == 3
+		if outOfRange && known[sigC26Refs] {
+			rec.Excluded(sigC26Refs)
+			return
+		}
+		req, _ := c26Gen(rt, outOfRange)
 		nodes := rapid.IntRange(1, 3).Draw(rt, "nodes")
 		algo := rapid.SampledFrom([]HashringAlgorithm{AlgorithmHashmod, AlgorithmKetama}).Draw(rt, "algo")
 		msg, classes, nt := c26Check(t, req, nodes, algo, known[sigC26Refs])
 		if msg != "" {
 			rt.Fatalf("C26 violated: %s\nrequest: %s", msg, c26Render(req))
-		}
-		for _, c := range classes {
-			if c == "ref-out-of-range" && known[sigC26Refs] {
-				rec.Excluded(sigC26Refs)
-				return
-			}
 		}
 		rec.Case(c26Render(req), nt, classes...)
 	})
